@@ -147,10 +147,11 @@ def parse_script(text):
 # ------------------------------------------------------------------ word values
 class Sym:
     "A symbolic string operand (flag argument); `relative`: a path relative to the caller's working directory."
-    def __init__(self, name, relative=False):
+    def __init__(self, name, relative=False, url=False):
         self.name = name
         self.z = z3.String(name)
         self.relative = relative
+        self.url = url
 
     def __repr__(self):
         return f"<{self.name}>"
@@ -1012,6 +1013,8 @@ def run_history(script_text, backend, history, cvsroot_set=None, budget_s=None):
                     if part.relative:
                         e.solver.add(z3.Length(part.z) >= 1, z3.Not(z3.PrefixOf(z3.StringVal("/"), part.z)), z3.Not(z3.Contains(part.z, z3.StringVal(":"))),
                                      z3.Not(z3.PrefixOf(z3.StringVal("."), part.z)))
+                    elif getattr(part, "url", False):
+                        e.solver.add(z3.PrefixOf(z3.StringVal("root://"), part.z))      # a URL: never to be re-based on a directory
                     else:
                         e.solver.add(z3.PrefixOf(z3.StringVal("/"), part.z))
     p0 = Path()
